@@ -111,7 +111,9 @@ func (s *Service) Handle(ctx context.Context, request []byte) (response []byte, 
 		if p := recover(); p != nil {
 			response, err = nil, NewPanicError("the error of the call can not be encoded")
 			if data, e := s.Codec.Encode(err, GetServiceContext(ctx)); e == nil {
-				response = data
+				// the answer of this call like any other error of a call: the transports take
+				// an error next to the response for a failure of the connection
+				response, err = data, nil
 			}
 		}
 	}()
